@@ -214,8 +214,9 @@ def make_sequence(rng, tier):
     for k in range(rng.choice([2, 2, 3])):
         if k >= 1 and rng.random() < 0.5:
             # the caller moves the vertices of the mesh object in place between two computations
+            size = max(max(p[k] for p in V) - min(p[k] for p in V) for k in range(3))
             for _ in range(20):
-                amp = 0.06
+                amp = 0.015 * size
                 V2 = [[x + rng.uniform(-amp, amp) for x in p] if not m["planar"] else [p[0] + rng.uniform(-amp, amp), p[1] + rng.uniform(-amp, amp), p[2]]
                       for p in V]
                 if G._nondegenerate(V2, m["F"]):
@@ -294,7 +295,11 @@ def run(ctx):
                 "features on/off, n_smooth in {0,1,3}, cotan/uniform weights, smooth_normals on/off; every field is driven through one of "
                 "the legal orders of its public stage methods (initialize+optimize, run, __call__, initialize then run / __call__, "
                 "initialize+optimize then run, run twice, optimize twice, n_smooth changed between two optimisations) and judged "
-                "after the protocol. Non-trivial = the mesh "
+                "after the protocol (incl. a refused optimize()/flag_singularities() before initialize() followed by normal use, and "
+                "initialize() twice); constructor call forms (keywords / defaults omitted / positional / 0-1 integers for the flags); "
+                "half of the surfaces renumbered + faces rotated + face list shuffled, 15% with the opposite orientation, 15% at "
+                "another length scale (1e-3, 1e3), single- and two-triangle meshes; 15% with garbage pre-seeded under the names of "
+                "the output / work attributes; flag_singularities() called twice in a quarter of the cases. Non-trivial = the mesh "
                 "has at least one free and one constrained element or is closed; distinct = canonical JSON of the case")
     ctx.assumptions += [
         "scipy spsolve / factorized / eigsh and the inverse power iteration are not modelled: the theorems hold for every "
@@ -375,6 +380,9 @@ def run(ctx):
         ctx.count("n_smooth=%d" % c["n_smooth"])
         ctx.count("weights=" + ("cotan" if c["cotan"] else "uniform"))
         ctx.count("protocol=" + c.get("protocol", "init_opt"))
+        ctx.count("callform=" + c.get("callform", "explicit"))
+        if c.get("preseed"):
+            ctx.count("preseeded attributes")
         ctx.count("mesh=" + c["kind"].rstrip("0123456789x"))
         nontriv = False
         if r["ok"] and "crash" not in r["obs"]:
@@ -456,12 +464,12 @@ def run(ctx):
         fidx, fterms = encode(fidx, faces_term)
         vidx, vterms = encode(vidx, vertices_term)
         n_dropped += (nf - len(fidx)) + (nv - len(vidx))
-        bad_f = ctx.run_cases("faces", HEADER, fterms, "check_faces", case_type="fcase", shard=8 if quick else 25, timeout=900)
-        bad_v = ctx.run_cases("vertices", HEADER, vterms, "check_vertices", case_type="vcase", shard=8 if quick else 25, timeout=900)
+        bad_f = ctx.run_cases("faces", HEADER, fterms, "check_faces", case_type="fcase", shard=8 if quick else 12, timeout=1800)
+        bad_v = ctx.run_cases("vertices", HEADER, vterms, "check_vertices", case_type="vcase", shard=8 if quick else 12, timeout=1800)
         # the stage protocol: how often initialize / optimize really ran, against the model of run() and of the flags
         PROTO = {"init_opt": "[CInit; COpt]", "run": "[CRun]", "call": "[CRun]", "init_run": "[CInit; CRun]", "init_call": "[CInit; CRun]",
                  "init_opt_run": "[CInit; COpt; CRun]", "run_run": "[CRun; CRun]", "opt_opt": "[CInit; COpt; COpt]",
-                 "init_opt_ns_opt": "[CInit; COpt; COpt]"}
+                 "init_opt_ns_opt": "[CInit; COpt; COpt]", "early_opt_run": "[COpt; CRun]", "init_init_opt": "[CInit; CInit; COpt]"}
         sidx = [i for i in okidx if "stage_calls" in results[i]["obs"]]
         sterms = ["(%s, %s, %s, %s)" % (coq_bool(cases[i]["elem"] == "faces"), PROTO[results[i]["obs"]["protocol"]],
                                        zlit(results[i]["obs"]["stage_calls"][0]), zlit(results[i]["obs"]["stage_calls"][1])) for i in sidx]
